@@ -11,15 +11,20 @@ fn near(a: i64, b: i64) -> bool {
 }
 
 pub fn judge(ctx: &Ctx, l: &mut Local, p: &Params, site: Site, date: NaiveDate) {
+    judge_w(ctx, l, p, site, date, Option::None)
+}
+/// `w`: weather supplied by the caller; the substitute computation must be made under the same weather
+pub fn judge_w(ctx: &Ctx, l: &mut Local, p: &Params, site: Site, date: NaiveDate, w: Option<(f64, f64)>) {
+    let wx = w.map(|(a, b)| weather(a, b));
     use ExtremeLatitudeMethod::*;
     use Prayer::*;
     let pol = p.extreme_latitude_method;
     let mut p0 = p.clone();
     p0.extreme_latitude_method = None;
-    let r0 = pt(&p0, site.loc(), date, Option::None);
-    let r = pt(p, site.loc(), date, Option::None);
+    let r0 = pt(&p0, site.loc(), date, wx);
+    let r = pt(p, site.loc(), date, wx);
     l.evals += 2;
-    let case = || PtCase::new(p, site, date);
+    let case = || PtCase::new(p, site, date).with_weather(w);
     let k = |pr: Prayer| format!("{:?}_{}", pr, case().key());
     let (Some(s0), Some(m0), Some(d0)) = (secs(&r0, Shurooq), secs(&r0, Maghrib), secs(&r0, Dhuhr)) else {
         return; // |lat| <= 60: cannot happen; C02 reports it
@@ -38,7 +43,7 @@ pub fn judge(ctx: &Ctx, l: &mut Local, p: &Params, site: Site, date: NaiveDate) 
     let any_missing = SIX.iter().any(|pr| r_ang[pr].is_err());
     // minutes-from-maghrib-invalid consumes the intervals itself (no separate interval step): it looks
     // at the angle-based values
-    let r_raw = if has_int && pol == MinutesFromMaghribFajrIshaInvalid { l.evals += 1; pt(&p_ang, site.loc(), date, Option::None) } else { r0.clone() };
+    let r_raw = if has_int && pol == MinutesFromMaghribFajrIshaInvalid { l.evals += 1; pt(&p_ang, site.loc(), date, wx) } else { r0.clone() };
     let mut engaged = false;
     let mut expect = |pr: Prayer, want: Option<f64>, what: &str, l: &mut Local| {
         let Some(w) = want else { return };
@@ -57,9 +62,9 @@ pub fn judge(ctx: &Ctx, l: &mut Local, p: &Params, site: Site, date: NaiveDate) 
         NearestLatitudeAllPrayersAlways(sub) | NearestLatitudeFajrIshaAlways(sub) | NearestLatitudeFajrIshaInvalid(sub) => {
             let sub = f64::from(sub);
             let sub_site = Site::new(sub, site.lon, site.elev, site.gmt);
-            let rs = pt(&p0, sub_site.loc(), date, Option::None);
+            let rs = pt(&p0, sub_site.loc(), date, wx);
             l.evals += 1;
-            let rs_ang = if has_int { l.evals += 1; pt(&p_ang, sub_site.loc(), date, Option::None) } else { rs.clone() };
+            let rs_ang = if has_int { l.evals += 1; pt(&p_ang, sub_site.loc(), date, wx) } else { rs.clone() };
             let all = matches!(pol, NearestLatitudeAllPrayersAlways(_));
             let inv = matches!(pol, NearestLatitudeFajrIshaInvalid(_));
             for pr in SIX {
@@ -205,11 +210,36 @@ pub fn explore(ctx: &Ctx) {
             }
         }
     });
+    // weather supplied by the caller (the range corners, where refraction moves a rise/set by several seconds)
+    let wjobs: Vec<(Site, f64, (f64, f64))> = {
+        let mut v = vec![];
+        for &lat in &[30.0, 55.0, -48.5] {
+            for &sub in &[60.0, -60.0, 48.5] {
+                for w in [(1050.0, -90.0), (100.0, 57.0), (600.0, 20.0), (1047.0, -68.5)] {
+                    v.push((Site::new(lat, 25.0, 0.0, 2.0), sub, w));
+                }
+            }
+        }
+        v
+    };
+    let wdates = dates_of_years(if quick { &[2023] } else { &[1999, 2023, 2399] });
+    ctx.alphabet("caller_weather", json!({"jobs_site_x_substitute_x_weather": wjobs.len(), "dates": wdates.len(), "policies": "the three nearest-latitude variants", "methods": ["Isna", "UmmAlQurra"]}));
+    par_jobs(ctx, &wjobs, |(site, sub, w), l| {
+        use ExtremeLatitudeMethod::*;
+        for m in [Method::Isna, Method::UmmAlQurra] {
+            for pol in [NearestLatitudeAllPrayersAlways(lat_of(*sub)), NearestLatitudeFajrIshaAlways(lat_of(*sub)), NearestLatitudeFajrIshaInvalid(lat_of(*sub))] {
+                let p = params(m, pol, RoundSeconds::None);
+                for &d in &wdates {
+                    judge_w(ctx, l, &p, *site, d, Some(*w));
+                }
+            }
+        }
+    });
 }
 
 pub fn replay(ctx: &Ctx, _clause: &str, case: &Value) {
-    let c: PtCase = serde_json::from_value(case.clone()).expect("case");
+    let c: PtCase = serde_json::from_value::<PtCase>(case.clone()).map(PtCase::fix).expect("case");
     let mut l = Local::default();
-    judge(ctx, &mut l, &c.params, c.site, c.date);
+    judge_w(ctx, &mut l, &c.params, c.site, c.date, c.weather);
     println!("  result: {}", fmt_r(&c.run()));
 }
